@@ -372,6 +372,7 @@ fn main() {
             let per: usize = arg_val(&args, "--per-case").and_then(|s| s.parse().ok()).unwrap_or(300);
             attack::suite_attack(&mut ctx, seed, n, per)
         }
+        "reopen-unshared" => attack::suite_reopen_unshared(&mut ctx),
         "race" => {
             let op = arg_val(&args, "--op").unwrap_or_else(|| "mkdir_all".into());
             attack::suite_race(&mut ctx, seed, n, &op)
